@@ -229,6 +229,15 @@ Proof.
   intro P. apply N. symmetry. revert P. apply (msg_key_preimage_inj aesE aesD AES); [exact (sc_iv_block keys sc K Hiv)|exact B|exact B'].
 Qed.
 
+(* a packet with the same covered bytes and the same key is accepted, whatever its fields are *)
+Theorem same_sign_bytes_accepted keys p p' k : SendMsgKey aesE md5 p keys = Ok k ->
+  send_sign_bytes p' = send_sign_bytes p -> sp_msgkey p' = k ->
+  ValidateSendPacket aesE md5 p' keys = 0.
+Proof.
+  intros E S Hk. apply (validate_honest keys p' k); [|exact Hk].
+  rewrite <- E. unfold SendMsgKey, with_keys, SendMsgKeyWithCrypto. rewrite S. reflexivity.
+Qed.
+
 (* the covered bytes of two packets that differ only in the payload differ *)
 Lemma sign_bytes_payload p p' :
   sp_seq p' = sp_seq p -> sp_msgno p' = sp_msgno p -> sp_chid p' = sp_chid p -> sp_chtype p' = sp_chtype p ->
